@@ -116,15 +116,19 @@ pub open spec fn n_of(w: World, cfg: Config, p: Seq<char>) -> int { n_missing_al
 pub open spec fn edited_with(w: World, cfg: Config, p: Seq<char>, first: int) -> Seq<u8> {
     edited(w.orig[p], found(w.orig[p], cfg), consec(first, n_of(w, cfg, p)))
 }
-// every replaced file holds its original with consecutive IDs alloc[p] .. alloc[p]+n(p), all handed out by the
-// counter since `start`; ranges of different files are disjoint; every other in-scope file is untouched
+// C01 (IDs only): every replaced file was given the range alloc[p] .. alloc[p]+n(p), all handed out by the counter since
+// `start`; ranges of different files are disjoint
 pub open spec fn alloc_inv(w: World, cfg: Config, start: int) -> bool {
     &&& forall|p: Seq<char>| #[trigger] w.alloc.dom().contains(p) ==>
             w.protected.contains(p) && n_of(w, cfg, p) > 0 && start <= w.alloc[p] && w.alloc[p] + n_of(w, cfg, p) <= w.counter
-            && w.fs[p] == edited_with(w, cfg, p, w.alloc[p])
-    &&& forall|p: Seq<char>| #[trigger] w.protected.contains(p) && !w.alloc.dom().contains(p) ==> w.fs[p] == w.orig[p]
     &&& forall|p: Seq<char>, q: Seq<char>| #[trigger] w.alloc.dom().contains(p) && #[trigger] w.alloc.dom().contains(q) && p != q ==>
             w.alloc[p] + n_of(w, cfg, p) <= w.alloc[q] || w.alloc[q] + n_of(w, cfg, q) <= w.alloc[p]
+}
+// C03/C07 (content): a replaced file holds its original with exactly the tokens for its range spliced in; every other
+// in-scope file is untouched.  Together with alloc_inv: the IDs present in the tree after the run are the disjoint ranges.
+pub open spec fn content_inv(w: World, cfg: Config) -> bool {
+    &&& forall|p: Seq<char>| #[trigger] w.alloc.dom().contains(p) ==> w.fs[p] == edited_with(w, cfg, p, w.alloc[p])
+    &&& forall|p: Seq<char>| #[trigger] w.protected.contains(p) && !w.alloc.dom().contains(p) ==> w.fs[p] == w.orig[p]
 }
 pub open spec fn all_edited(w: World, cfg: Config, k: int) -> bool {
     forall|i: int| 0 <= i < k && readable(#[trigger] w.files[i]) ==>
